@@ -7,10 +7,13 @@ CONSTANTS
   FirstHeight = 11
   MsgHeights = {0, 12}
   StoredPools = 10
-  MaxReqs = 1
+  MaxReqs = 2
+  MaxWaiters = 1
+  Expiry = TRUE
   EnableBlackListing = TRUE
   FilterOnPromote = TRUE
   CheckOnHandout = TRUE
+  CheckOnWake = TRUE
 VIEW view
 
 INVARIANTS TypeOK NotPromotedBeforeConfirmed BlacklistedNeverOffered BlockedNotInNodes
